@@ -89,6 +89,28 @@ def monCpSlippage (tol : Option Nat) (x y offer net : Nat) : Verdict :=
   let eff := min (tol.getD C.DEFAULT_SLIPPAGE) C.MAX_ALLOWED_SLIPPAGE
   firstFail [(ideal ≤ net || ideal = 0 || (ideal - net) * ONE18 / ideal ≤ eff, "C13-slippage-exceeded")]
 
+def hasDup : List String → Bool
+  | [] => false
+  | x :: xs => xs.contains x || hasDup xs
+
+/-- C16: what every stored pool looks like: 2 assets (constant product) or 2-4 (stableswap, amp > 0),
+    pairwise distinct, one decimals entry per asset, every fee below 100 % and at most 20 % in total -/
+def monPoolWf (cp : Bool) (amp : Nat) (denoms : List String) (ndec : Nat) (fees : List Nat) : Verdict :=
+  firstFail [
+    (if cp then denoms.length == 2 else (C.MIN_ASSETS_PER_POOL ≤ denoms.length && denoms.length ≤ C.MAX_ASSETS_PER_POOL && 0 < amp), "C16-asset-count"),
+    (!hasDup denoms, "C16-repeated-asset"),
+    (ndec == denoms.length, "C16-decimals-mismatch"),
+    (fees.all (· < ONE18), "C16-fee-100"),
+    (fees.foldl (· + ·) 0 ≤ C.MAX_TOTAL_FEE_PERCENT, "C16-fee-total")]
+
+/-- C12 (constant product): offering one unit more than the reverse quote for `ask` returned `ret`.
+    Shortfalls of at most `ask / 10^18 + 1` units on fee-charging pools are the known class F-09 (the
+    quote grosses the request up with an 18-digit reciprocal of `1 - fees`). -/
+def monRev (ask fees ret : Nat) : Verdict :=
+  if ask ≤ ret then none
+  else if fees ≠ 0 && ask - ret ≤ ask / ONE18 + 1 then some "C12-reverse-short-minor"
+  else some "C12-reverse-short"
+
 /-- C08: a withdrawal is accepted only from the owner, and without the emergency flag only for a
     closed position whose unlock instant has been reached -/
 def monWithdrawPosAccept (ok isOwner emergency : Bool) (expiring : Option Nat) (now : Nat) : Verdict :=
